@@ -901,6 +901,7 @@ func genRetryLoop(repo, out string) {
 	loopFacts(g, findMethod(f, "client", "lookupRegion"), "lookupRegion")
 	loopFacts(g, findMethod(f, "client", "lookupAllRegions"), "lookupAllRegions")
 	loopFacts(g, findMethod(f, "client", "establishRegion"), "establishRegion")
+	loopFacts(g, findMethod(parse(filepath.Join(repo, "admin_client.go")), "client", "checkProcedureWithBackoff"), "checkProcedure")
 	// SendBatch: `needBackoff = immediateRetries > N`
 	guard := "none"
 	if fd := findMethod(f, "client", "SendBatch"); fd != nil {
